@@ -29,3 +29,14 @@ mod timeout_coord;
 
 /// Ends of two independent channels (for example the input and output channels of an agent).
 type Io = (ByteWriter, ByteReader);
+
+/// Verification hooks (only with `--cfg swimos_verif`): a facade over otherwise private
+/// components so that they can be driven directly by an external harness.
+#[cfg(swimos_verif)]
+pub mod verif_hooks {
+    pub use crate::agent::verif_hooks::*;
+    pub use crate::backpressure::verif_hooks::*;
+    pub mod timeout_coord {
+        pub use crate::timeout_coord::*;
+    }
+}
